@@ -22,7 +22,11 @@ from harness import c06, c15
 
 ID = 'C14'
 T = es.T
-ACTIONS = ['parse', 'execute', 'register_function', 'register_prefix', 'register_infix', 'register_postfix', 'lock_ctx', 'execute_self', 'set_var']
+ACTIONS = ['parse', 'execute', 'register_function', 'register_prefix', 'register_infix', 'register_postfix', 'lock_ctx', 'execute_self', 'set_var',
+           'execute_then_register', 'parse_then_register', 'execute_twice', 'register_then_execute']
+# (the last four: two actions in a row inside one handler invocation)
+SEQ = {'execute_then_register': ('execute', 'register_function'), 'parse_then_register': ('parse', 'register_infix'),
+       'execute_twice': ('execute', 'execute'), 'register_then_execute': ('register_postfix', 'execute')}
 # set_var: the handler binds x = 41 in the very context it is being evaluated in (through its shared handle)
 FORTY_ONE = api.V_num(41, 0)
 # execute_self: the handler evaluates a program that invokes the same handler again (two levels deep)
@@ -72,6 +76,14 @@ def prepare(it):
 
 
 def make_reenter(action, depth2):
+    if action in SEQ:
+        first, second = (make_reenter(a, depth2) for a in SEQ[action])
+
+        def both(it_, ctx_cell, name):
+            first(it_, ctx_cell, name)
+            second(it_, ctx_cell, name)
+        return both
+
     def act(it_, ctx_cell, name):
         if action == 'parse':
             r = it_.call('parse_expression', [mkstr(REENTRANT_PROGRAM)])
@@ -207,7 +219,7 @@ def run(ctx):
     eng = ctx.engine('dev')
     recs, summ = ex.explore(eng, harness, params, prepare=prepare)
     res = c06.judge(ctx, 'C14', tpls, recs, summ, scenario, concrete_reference, lambda a, b, ref: None, native=False,
-                    extra_outside=['re-entrant nesting deeper than one level', 'actions other than the nine listed'])
+                    extra_outside=['re-entrant nesting deeper than one level', 'actions other than the thirteen listed'])
     res['findings'] = []
     groups = {}
     for r in recs:
